@@ -20,6 +20,7 @@ package storage
 
 import (
 	"strings"
+	"sync"
 	"time"
 
 	"github.com/bradfitz/gomemcache/memcache"
@@ -31,6 +32,7 @@ import (
 type MemcachedSessionDatabase struct {
 	client     *memcache.Client
 	underlying *cache.Cache[[]byte]
+	mutex      *sync.Mutex
 }
 
 // NewMemcachedSessionDatabase creates a new MemcachedSessionDatabase using an initialized memcache.Client.
@@ -41,6 +43,7 @@ func NewMemcachedSessionDatabase(client *memcache.Client) *MemcachedSessionDatab
 	return &MemcachedSessionDatabase{
 		underlying: cache.New[[]byte](memcachedStore),
 		client:     client,
+		mutex:      &sync.Mutex{},
 	}
 }
 
@@ -50,6 +53,7 @@ func (s MemcachedSessionDatabase) GetStore(ttl time.Duration, keys ...string) Se
 		ttl:        ttl,
 		prefixes:   keys,
 		db:         s,
+		mutex:      s.mutex,
 	}
 }
 
